@@ -62,6 +62,24 @@ theorem pbMemappend_clean (g : Oracle) (h : Heap) (hwf : WF h) (p : PbA) (size :
        (r.2 = -1 ∧ r.1 = p ∧ h'.live = h.live ∧ (h'.errno = .EFBIG ∨ Failed g h h')))) :=
   pbMemappend_spec g h hwf p size hb
 
+/-- tie to the C19 model (Model/Printbuf.lean, which assumes the realloc succeeds): when printbuf_extend
+has to grow, C19's `extend` produces exactly the size this model asks realloc for -/
+theorem pbExtend_refines_C19 (p : Printbuf.Pb) (m : Int) (h1 : ¬ (p.size : Int) ≥ m)
+    (h2 : ¬ m > Printbuf.INT_MAX - pbExtendGuard) :
+    Printbuf.extend p m = (pbNewSize p.size m >>= fun n =>
+      if n ≤ 0 then .fault "extend: realloc with non-positive size"
+      else .ok ⟨{ p with cells := Printbuf.reallocCells p.cells n.toNat, size := n.toNat }, 0, .none⟩) := by
+  unfold Printbuf.extend pbNewSize
+  rw [if_neg h1, if_neg h2]
+  have hI : INT_MAX = Printbuf.INT_MAX := rfl
+  rw [hI]
+  by_cases h3 : (p.size : Int) > Printbuf.INT_MAX / 2
+  · simp only [if_pos h3]
+  · simp only [if_neg h3]
+    cases Printbuf.ckInt (↑p.size * 2) "extend: p->size * 2" with
+    | fault w => rfl
+    | ok d =>
+      cases Printbuf.ckInt (m + ↑pbExtendSlack) "extend: min_size + 8" <;> rfl
 /-! ## arraylist.c -/
 
 /-- array_list_new2: both blocks or none -/
